@@ -6,6 +6,10 @@
 (*                  expected outcome for both values of "decodes" and the     *)
 (*                  spec's own verdict on decodes ("yes" | "no" | "either")   *)
 (*   Mode "short" : the 12 proper prefixes of a valid query                   *)
+(*   Mode "phase" : packets x the lifecycle phases other than "serving": every *)
+(*                  header the policy accepts with every body, one header of  *)
+(*                  each other policy class (shard-dependent) with bodies     *)
+(*                  none / full / garbage, and the short prefixes             *)
 (*   Mode "route" : pattern subset x question name x qtype x request flags    *)
 EXTENDS Admission, GenBase
 
@@ -103,25 +107,33 @@ OutRec(o, h) ==
   [handled |-> o.handled, invalid |-> o.invalid, reply |-> o.reply,
    exp |-> IF o.reply \in {"formerr", "notimp"} THEN ReplyExpect(h, o.reply) ELSE ReplyExpect(h, "formerr")]
 
-PktVector(w) ==
+PktVectorAt(ph, w) ==
   LET h == HdrOf(w)
       pkt == EncHeader(h) \o Body(h, w[7])
       d == Decodes(h, w[7]) IN
-  [kind |-> "pkt", pkt |-> pkt, hdr |-> h, body |-> w[7], policy |-> Policy(h), dec |-> d,
-   ifdec |-> OutRec(Outcome(Len(pkt), h, TRUE), h),
-   ifnot |-> OutRec(Outcome(Len(pkt), h, FALSE), h),
+  [kind |-> "pkt", phase |-> ph, pkt |-> pkt, hdr |-> h, body |-> w[7], policy |-> Policy(h), dec |-> d,
+   ifdec |-> OutRec(OutcomeAt(ph, Len(pkt), h, TRUE), h),
+   ifnot |-> OutRec(OutcomeAt(ph, Len(pkt), h, FALSE), h),
    \* the decoded request a handler must be given when the spec is sure the message decodes
    req |-> [nq |-> IF w[7] = 1 THEN h.qd ELSE 1, nan |-> IF w[7] = 1 THEN h.an ELSE 0,
             nns |-> IF w[7] = 1 THEN h.ns ELSE 0, nar |-> IF w[7] = 1 THEN h.ar ELSE 0,
             qname |-> QText, qtype |-> 1, qclass |-> 1]]
 
-ShortVector(n) ==
+PktVector(w) == PktVectorAt("serving", w)
+
+ShortVectorAt(ph, n) ==
   LET h == HdrOf(<<0, 0, 1, 0, 0, 0, 12>>)
       pkt == Sub(EncHeader(h) \o Question, 1, n)
-      o == Outcome(n, h, FALSE) IN
-  [kind |-> "pkt", pkt |-> pkt, hdr |-> h, body |-> 100 + n, policy |-> "short", dec |-> "no",
-   ifdec |-> OutRec(Outcome(n, h, TRUE), h), ifnot |-> OutRec(o, h),
+      o == OutcomeAt(ph, n, h, FALSE) IN
+  [kind |-> "pkt", phase |-> ph, pkt |-> pkt, hdr |-> h, body |-> 100 + n, policy |-> "short", dec |-> "no",
+   ifdec |-> OutRec(OutcomeAt(ph, n, h, TRUE), h), ifnot |-> OutRec(o, h),
    req |-> [nq |-> 0, nan |-> 0, nns |-> 0, nar |-> 0, qname |-> <<>>, qtype |-> 0, qclass |-> 0]]
+ShortVector(n) == ShortVectorAt("serving", n)
+
+\* Mode "phase": v = <<phase, 0, <<n, 0, 0, 0, 0, 0, 0>>>> (a short prefix) or <<phase, 1, w>> (w as in mode "pkt")
+PhaseHeader(w) == \/ Policy(HdrOf(w)) = "accept"
+                  \/ w[7] \in {0, 1, 11} /\ HIdx(w) % NShards = Shard
+PhaseVector(x) == IF x[2] = 0 THEN ShortVectorAt(x[1], x[3][1]) ELSE PktVectorAt(x[1], x[3])
 
 -----------------------------------------------------------------------------
 \* v = <<subset bits, name index (0 = request without a question), qtype index, flavour index>>
@@ -162,6 +174,10 @@ Init ==
   \/ /\ Mode = "pkt"
      /\ v \in { w \in (0..1) \X (0..15) \X (0..3) \X (0..3) \X (0..3) \X (0..3) \X BodyKinds : Always(w) \/ InShard(w) }
   \/ Mode = "short" /\ v \in { <<n>> : n \in 0..11 }
+  \/ /\ Mode = "phase"
+     /\ v \in { <<ph, 0, <<n, 0, 0, 0, 0, 0, 0>>>> : ph \in Phases \ {"serving"}, n \in 0..11 }
+          \cup { <<ph, 1, w>> : ph \in Phases \ {"serving"},
+                                w \in { u \in (0..1) \X (0..15) \X (0..3) \X (0..3) \X (0..3) \X (0..3) \X BodyKinds : PhaseHeader(u) } }
   \/ /\ Mode = "route"
      /\ v \in { w \in (0..(Pow2(Len(PatSeq)) - 1)) \X (0..Len(NameSeq)) \X (1..Len(QTypes)) \X (1..Len(Flavours)) :
                   (w[1] + w[2] + w[3]) % Len(Flavours) = w[4] - 1 \/ (w[2] = 0 /\ w[3] = 1 /\ w[4] <= 2) }
@@ -170,5 +186,6 @@ Next == UNCHANGED v
 Out ==
   CASE Mode = "pkt"   -> Emit(PktVector(v))
     [] Mode = "short" -> Emit(ShortVector(v[1]))
+    [] Mode = "phase" -> Emit(PhaseVector(v))
     [] Mode = "route" -> Emit(RouteVector(v))
 =============================================================================
